@@ -277,6 +277,42 @@ class ExtReal:
             return fin(1, 1 / sp.sqrt(2 * sp.pi))
         return fin(1, None)
 
+    def e_log_prob(self, t, d, x):
+        """log density of Normal(0, 1) (the only distribution the helpers use)"""
+        if not (isinstance(d, Op) and d.op == "dist" and d.args[0] == "Normal" and [sp.nsimplify(v) for v in d.args[1:3]] == [0, 1]):
+            raise NotImplementedError("log_prob of a distribution other than Normal(0, 1)")
+        a = self.ev(x)
+        if a.kind == "nan":
+            return a
+        if a.kind == "inf":
+            return inf(-1)
+        if a.kind == "zero":
+            return fin(-1, -sp.log(sp.sqrt(2 * sp.pi)))
+        return fin(None, None if a.expr is None else -a.expr ** 2 / 2 - sp.log(sp.sqrt(2 * sp.pi)))
+
+    def e_cdf(self, t, d, x):
+        if not (isinstance(d, Op) and d.op == "dist" and d.args[0] == "Normal" and [sp.nsimplify(v) for v in d.args[1:3]] == [0, 1]):
+            raise NotImplementedError("cdf of a distribution other than Normal(0, 1)")
+        return self.e_ncdf(t, x)
+
+    def e_clamp(self, t, x, *r):
+        kw = t.kwd()
+        lo = r[0] if len(r) > 0 and r[0] is not None else kw.get("min")
+        hi = r[1] if len(r) > 1 and r[1] is not None else kw.get("max")
+        a = self.ev(x)
+        if a.kind == "nan":
+            return a
+        if a.kind == "inf":
+            bound = hi if a.sign == 1 else lo
+            if bound is None:
+                return a
+            return self.ev(bound)  # an infinite value is cut to the finite bound
+        if a.kind == "zero" and (lo is None or (is_num(lo) and lo <= 0)) and (hi is None or (is_num(hi) and hi >= 0)):
+            return a
+        if lo is not None and is_num(lo) and lo == 0 and hi is None:
+            return fin(1 if a.sign == 1 else None, a.expr if a.sign == 1 else None)
+        return fin(a.sign if (lo is None or not is_num(lo) or lo <= 0) and (hi is None or not is_num(hi) or hi >= 0) else None, None)
+
     def e_zeros_like(self, t, x):
         return zero()
 
